@@ -163,7 +163,12 @@ def gen_cases(rng: Rng, tier):
                 fam = rng.choice(["bsplines", "legendre", "fourier", "wiener"])
                 K = rng.randint(4, 6) if fam == "bsplines" else rng.randint(2, 5)
                 mm = rng.randint(max(K + 3, 9), 25)
-                case.update(family=fam, K=K, is_normalized=rng.random() < 0.6,
+                kw = {}
+                if fam == "bsplines" and rng.random() < 0.7:    # non-default spline degree (1..5), forwarded through **kwargs
+                    kw["degree"] = rng.randint(1, 5)
+                    K = rng.randint(kw["degree"] + 2, kw["degree"] + 6)
+                    mm = rng.randint(max(K + 3, 9), 31)
+                case.update(family=fam, K=K, is_normalized=rng.random() < 0.6, kw=kw,
                             # uniform grids: the normalisation option integrates with scipy's Simpson rule, whose
                             # weights can be negative on strongly non-uniform grids (NaN basis; not this property)
                             t=[rs(x) for x in rng.grid(mm, lo=rng.choice([0, 0, -1, 2]), scale=rng.choice([1, 1, 2, 5]), uniform=True)],
@@ -329,7 +334,7 @@ def run_impl(case):
         try:
             if case.get("family"):
                 basis = Basis(name=case["family"], n_functions=case["K"], argvals=DenseArgvals({"input_dim_0": np.array(fl(t))}),
-                              is_normalized=case["is_normalized"])
+                              is_normalized=case["is_normalized"], **case.get("kw", {}))
                 out["B"] = np.asarray(basis.values).tolist()
             else:
                 basis = Basis(name="given", argvals=DenseArgvals({"input_dim_0": np.array(fl(t))}), values=DenseValues(B))
@@ -516,13 +521,16 @@ def compare(case, impl, model):
         if "error" in impl:
             return []
         qs = pvec(model["outs"][0])
-        ds += _cmp_vec("basis normsq", impl["nsq"], qs, None, 1e-8)
+        # Basis.inner_product zeroes basis-Gram entries below 1e-12 (absolute, by design): each zeroed entry
+        # moves <c_i, G c_j> by at most 1e-12 |c_ik| |c_jl|, i.e. 1e-12 * l1^2 in total
+        l1 = max(sum(abs(float(F(x))) for x in r) for r in case["C"])
+        slack = 1e-3 * l1 * l1      # times rtol 1e-8 = 1e-11 l1^2
+        ds += _cmp_vec("basis normsq", impl["nsq"], qs, max([abs(float(q)) for q in qs] + [1.0]) + slack, 1e-8)
         ds += _cmp_vec("grid normsq", impl["grid_nsq"], qs, None, 1e-9)
         Q = pmat(model["outs"][1])
         sc = max([abs(float(x)) for r in Q for x in r] + [1e-300])
         for i, (gr, qr) in enumerate(zip(impl["G"], Q)):
-            # Basis.inner_product zeroes basis-Gram entries below 1e-12: absolute slack
-            ds += _cmp_vec(f"coefficient Gram[{i}]", gr, qr, sc + 1.0, 1e-8)
+            ds += _cmp_vec(f"coefficient Gram[{i}]", gr, qr, sc + 1.0 + slack, 1e-8)
     return ds
 
 
